@@ -1849,7 +1849,7 @@ def c08_real(ctx):
 PLANS["C08"] = dict(
     modules=["Wx.Job.C08", "Wx.Job.C08b", "Wx.Job.C06", "Wx.Job.C08t", "Wx.Job.C08m", "Wx.Job.SimInduct3", "Wx.Cli.Action", "Wx.Cli.SignalPrioThm", "Wx.Reg.Thm"],
     translate=True,
-    theorems=["Wp.interrupt_and_terminate_are_urgent", "Wp.other_signals_are_high", "Wp.only_two_signals_are_singled_out", "Wp.signalPrio_translated", "Jm.c08_main_bound", "Jm.dead_stays_dead", "Ca.first_interrupt_quits_gracefully", "Ca.graceful_quit_sequence", "Ca.other_signals_pass", "Ca.interrupts_escalate", "Ca.unmapped_signals_pass_unchanged", "Ca.mapped_interrupt_does_not_quit", "Ca.translate_one", "Ca.last_mapping_wins", "Ca.keyboard_eof_quits_gracefully", "Ca.keyboard_eof_ignored_without_option", "Rg.no_job_outside_the_registry", "Rg.abort_reaches_every_job_task", "Rg.minted_ids_are_fresh", "Rg.inv_step", "Rg.inv_endAction", "Rg.get_or_create_twice_leaks_today", "Jm.c08_quit_bound", "Jm.c08_deadline", "Jm.quit_deadline", "Jm.idle_timer", "Jm.deadline_simInv", "Jm.nextEvent_some", "Jm.nextEvent_none", "Jm.c08_delete_after_stop", "Jm.c08_delete_idle", "Jm.c08_same_script_fixed", "Jm.c08_fails_today", "Jm.timer_fires", "Jm.expiry_kills", "Jm.graceful_stop_step", "Jm.held_back", "Jm.c04"],
+    theorems=["Wp.interrupt_and_terminate_are_urgent", "Wp.listened_signals_are_reported_as_themselves", "Wp.other_signals_are_high", "Wp.only_two_signals_are_singled_out", "Wp.signalPrio_translated", "Jm.c08_main_bound", "Jm.dead_stays_dead", "Ca.first_interrupt_quits_gracefully", "Ca.graceful_quit_sequence", "Ca.other_signals_pass", "Ca.interrupts_escalate", "Ca.unmapped_signals_pass_unchanged", "Ca.mapped_interrupt_does_not_quit", "Ca.translate_one", "Ca.last_mapping_wins", "Ca.keyboard_eof_quits_gracefully", "Ca.keyboard_eof_ignored_without_option", "Rg.no_job_outside_the_registry", "Rg.abort_reaches_every_job_task", "Rg.minted_ids_are_fresh", "Rg.inv_step", "Rg.inv_endAction", "Rg.get_or_create_twice_leaks_today", "Jm.c08_quit_bound", "Jm.c08_deadline", "Jm.quit_deadline", "Jm.idle_timer", "Jm.deadline_simInv", "Jm.nextEvent_some", "Jm.nextEvent_none", "Jm.c08_delete_after_stop", "Jm.c08_delete_idle", "Jm.c08_same_script_fixed", "Jm.c08_fails_today", "Jm.timer_fires", "Jm.expiry_kills", "Jm.graceful_stop_step", "Jm.held_back", "Jm.c04"],
     bins=[("lib", ["wxquit", "wxquitreal", "wxreg"]), ("cli", ["wxcli-main", "wxcliaction"])],
     streams=lambda ctx: c08_streams(ctx) + [c08_real(ctx), registry_stream("C08", ctx), cli_e2e(ctx, "C08")] + c05_streams(ctx, "cli-quit", "C08", cliquit_cases, cliquit_oracle) + c05_streams(ctx, "cli-sigmap", "C08", sigmap_cases, sigmap_oracle),
     sources=["crates/lib/src/action/worker.rs", "crates/lib/src/action/handler.rs", "crates/lib/src/id.rs", "crates/lib/src/watchexec.rs", "crates/lib/src/late_join_set.rs", "crates/supervisor/src/job/task.rs", "crates/cli/src/config.rs"],
@@ -2366,10 +2366,36 @@ def cli_e2e(ctx, pid):
             for l in (log.read_text().splitlines() if log.exists() else []):
                 try: os.kill(int(l.split()[1]), 9)
                 except Exception: pass
+    def pass_on():
+        """every other signal watchexec listens for (HUP, QUIT, USR1, USR2) is handed to the command as ITSELF and quits nothing: signal source ->
+        event -> handler -> job.signal -> process, for real"""
+        d, log = setup("pass-on")
+        traps = "; ".join(f'trap "echo GOT{n} >> {log}" {n}' for n in ("HUP", "QUIT", "USR1", "USR2"))
+        p = launch(d, ["--stop-timeout=700ms"], f'{traps}; trap "exit 0" TERM; echo "START $$" >> {log}; while :; do sleep 0.1; done')
+        try:
+            if wait_line(log, "START", 6.0) is None: return None
+            child = int(log.read_text().split()[1])
+            time.sleep(0.3)
+            out = []
+            for n in ("HUP", "QUIT", "USR1", "USR2"):
+                before = log.read_text().splitlines()
+                p.send_signal(getattr(sg, "SIG" + n))
+                got = wait_line(log, "GOT" + n, 4.0)
+                if p.poll() is not None: return out + [f"SIG{n} sent to watchexec made it exit (only an interrupt or terminate signal quits)"]
+                new_lines = [l for l in log.read_text().splitlines()[len(before):] if l.startswith("GOT")]
+                if got is None: out.append(f"SIG{n} sent to watchexec did not reach the command within 4 s (the command saw {new_lines or 'nothing'})")
+                elif new_lines != ["GOT" + n]: out.append(f"SIG{n} sent to watchexec reached the command as {new_lines}")
+                if not alive(child): return out + [f"SIG{n} sent to watchexec ended the command"]
+            return out
+        finally:
+            finish(p)
+            for l in (log.read_text().splitlines() if log.exists() else []):
+                try: os.kill(int(l.split()[1]), 9)
+                except Exception: pass
     jobs = ([("start-up run", lambda: startup(False)), ("--postpone", lambda: startup(True)), ("start-up run with a long debounce", startup_long_debounce)] if pid == "C05" else
             [(f"{sn} {'ignored' if ig else 'honoured'}", (lambda sn=sn, ig=ig: quit_on(sn, ig))) for sn in ("SIGINT", "SIGTERM") for ig in (False, True)] +
             [(f"{sn} inside a debounce window", (lambda sn=sn: quit_in_window(sn))) for sn in ("SIGINT", "SIGTERM")] +
-            [("--stdin-quit: end of input", stdin_quit), ("--map-signal: mapped TERM, unmapped INT", mapped_signal)])
+            [("--stdin-quit: end of input", stdin_quit), ("--map-signal: mapped TERM, unmapped INT", mapped_signal), ("HUP QUIT USR1 USR2 passed on", pass_on)])
     with ThreadPoolExecutor(len(jobs)) as ex: results = list(ex.map(lambda j: j[1](), jobs))
     for i, ((name, _), r) in enumerate(zip(jobs, results)):
         s.evaluations += 1; s.bump(name if r is not None else name + " (inconclusive)"); s.nontrivial.add(name.encode())
